@@ -73,6 +73,8 @@ def _run(case, loop, S, RPCSession, MessageSession, RSTransport, USTransport, Se
             return 'closed'
         if name == 'boom':
             raise KeyError('boom')
+        if name == 'selfcancel':          # e.g. the handler awaited a future that somebody cancelled
+            raise asyncio.CancelledError()
         return 'ok'
 
     if kind == 'rpc':
@@ -253,6 +255,7 @@ def _run(case, loop, S, RPCSession, MessageSession, RSTransport, USTransport, Se
                 await s.close(force_after=30)
             mk('both', both)
 
+    requested = set()       # member tasks on which cancel() was called
     known_waiters = {}      # future -> id
     late_waiters = set()    # registered after the hook ran: outside the property
     prev = {'loop_done': False, 'closed': False, 'hdone': set(), 'wdone': set()}
@@ -282,7 +285,8 @@ def _run(case, loop, S, RPCSession, MessageSession, RSTransport, USTransport, Se
         for i, tk in sorted(handler_states().items()):
             if tk.done() and i not in prev['hdone']:
                 prev['hdone'].add(i)
-                raised = (not tk.cancelled()) and tk.exception() is not None
+                # "its result() raises in the body of process_messages": an exception, or a cancellation nobody asked for
+                raised = (tk.exception() is not None) if not tk.cancelled() else (tk not in requested)
                 derived.append(['hdone', i, raised])
         loop_task = next((tk for tk, i in members.items() if i == 0), None)
         loop_done = bool(loop_task is not None and loop_task.done())
@@ -300,6 +304,8 @@ def _run(case, loop, S, RPCSession, MessageSession, RSTransport, USTransport, Se
         return derived, snap
 
     trace = []
+    lost_time = [None]
+    pm_done_at_fault = [None]
     script = list(case['script'])
     n = si = 0
     faulted = False
@@ -308,6 +314,7 @@ def _run(case, loop, S, RPCSession, MessageSession, RSTransport, USTransport, Se
     while True:
         labels.clear()
         if n == k and not faulted:
+            pm_done_at_fault[0] = pm_task.done()
             in_loop(do_fault)
             faulted = True
         if si < len(script) and n % 2 == 0:
@@ -317,6 +324,7 @@ def _run(case, loop, S, RPCSession, MessageSession, RSTransport, USTransport, Se
         h = loop.tick()
         log = PT.cancel_log
         PT.cancel_log = None
+        requested.update(log)
         n += 1
         tick_labels = list(labels)
         if h is not None and log:
@@ -330,6 +338,8 @@ def _run(case, loop, S, RPCSession, MessageSession, RSTransport, USTransport, Se
                     if members[tk] != 0 and not tk.done():
                         tick_labels.append(['cancelreq', members[tk]])
         derived, snap = snapshot_and_derived()
+        if t.lost and lost_time[0] is None:
+            lost_time[0] = loop.time()
         trace.append([tick_labels + derived, snap])
         if h is None and si >= len(script):
             idle = True
@@ -340,6 +350,7 @@ def _run(case, loop, S, RPCSession, MessageSession, RSTransport, USTransport, Se
         return {'skipped': True}
     left = [x for x in asyncio.all_tasks(loop) if not x.done()]
     res = {'trace': trace, 'idle': idle, 'hooks': len(hooks), 'hook_time': hooks[0] if hooks else None,
+           'lost_time': lost_time[0], 'pm_done_at_fault': pm_done_at_fault[0],
            'left': len(left), 'lost': t.lost, 'closers_done': all(c.done() for c in closers), 'pm_done': pm_task.done(),
            'outcomes': outcomes, 'started': started, 'time': loop.time(), 'ticks': n,
            'handlers': {str(i): [tk.done(), tk.cancelled() if tk.done() else None] for i, tk in handler_states().items()},
@@ -396,6 +407,7 @@ SCRIPTS = [
     [['call'], ['call'], ['call'], ['call'], ['req', 'fast'], ['answer'], ['req', 'slow'], ['batch']],
     [['req', 'stubborn'], ['req', 'boom'], ['req', 'slow'], ['garbage'], ['call'], ['pause'], ['req', 'fast'], ['resume']],
     [['req', 'slow'], ['req', 'slow'], ['req', 'slow'], ['pause'], ['req', 'fast'], ['req', 'fast'], ['call'], ['batch']],
+    [['call'], ['req', 'slow'], ['batch'], ['req', 'selfcancel'], ['req', 'fast'], ['call']],
 ]
 
 
@@ -427,7 +439,7 @@ class C08(Prop):
     def generate(self, rng, n, tier):
         for i in range(n):
             sc = rng.choice(SCRIPTS) if rng.random() < 0.7 else [rng.choice(
-                [['req', 'slow'], ['req', 'stubborn'], ['req', 'fast'], ['req', 'boom'], ['call'], ['batch'], ['pause'],
+                [['req', 'slow'], ['req', 'stubborn'], ['req', 'fast'], ['req', 'boom'], ['req', 'selfcancel'], ['call'], ['batch'], ['pause'],
                  ['resume'], ['answer'], ['garbage']]) for _ in range(rng.randint(3, 10))]
             yield {'kind': rng.choice(['rpc', 'rpc', 'msg']), 'tcls': rng.choice(['raw', 'unix']),
                    'graceful': rng.random() < 0.7, 'fault': rng.choice(FAULTS), 'k': rng.randrange(0, 24),
@@ -452,7 +464,11 @@ class C08(Prop):
         if obs['loop_exc']:
             return 'an exception escaped into the event loop: ' + obs['loop_exc'][0]
         if not obs['lost']:
-            if case['fault'] in ('drop', 'close', 'close2', 'abort', 'close_twice', 'abort_then_close'):
+            # (when message processing had already ended - a handler's own cancellation ends it - close() finds
+            # _closed_event set and has nothing to wait for: out of this property's scope)
+            if case['fault'] in ('drop', 'close', 'close2', 'abort', 'close_twice', 'abort_then_close') \
+                    and not obs.get('pm_done_at_fault') \
+                    and not any(l[0] == 'hdone' and l[2] for ls, _ in obs['trace'] for l in ls):
                 return 'the connection was never lost although it was dropped / closed / aborted'
             return None
         if obs['hooks'] != 1:
@@ -468,7 +484,9 @@ class C08(Prop):
         for i, (done, canc) in obs['handlers'].items():
             if not done:
                 return f'handler {i} still running at the end'
-        ht = obs['hook_time']
+        # released no later than the hook / the loss, whichever came last (a handler's own cancellation can
+        # end message processing, and run the hook, long before the connection goes)
+        ht = max(obs['hook_time'], obs.get('lost_time') or 0)
         for name, started in obs['started'].items():
             if name[0] in 'rb' and name[1:].isdigit() and started:
                 oc = obs['outcomes'].get(name)
